@@ -31,6 +31,13 @@ pub fn unhex(s: &str) -> Vec<u8> {
 
 pub fn set_node_env(dir: &str) {
     std::env::set_var("RNACOS_DATA_DIR", dir);
+    if std::env::var("RNVERIF_CLUSTER").is_ok() {
+        // a member of a real cluster: node id, address, gRPC port, auto-init / join address and the snapshot
+        // threshold come from the driver's environment
+        std::env::set_var("RNACOS_HTTP_PORT", "0");
+        std::env::set_var("RNACOS_ENABLE_METRICS", "false");
+        return;
+    }
     // RNVERIF_LEADER=1: a real single-member Raft group (this node elects itself and serves writes)
     let leader = std::env::var("RNVERIF_LEADER").map(|v| v == "1").unwrap_or(false);
     std::env::set_var("RNACOS_RAFT_AUTO_INIT", if leader { "true" } else { "false" });
@@ -307,6 +314,48 @@ pub async fn exec(app: &Arc<AppShareData>, op: &Value) -> Value {
                     Err(e) => Ok(json!({"res":"error","err":e.to_string()})),
                 }
             }
+            "cfg_route_set" | "cfg_route_del" => {
+                // what the HTTP / gRPC handlers of any node do with a publish / remove: ConfigRoute (local leader or routed)
+                use rnacos::config::core::ConfigKey;
+                use rnacos::raft::cluster::model::{DelConfigReq, SetConfigReq};
+                let key = ConfigKey::new(op["data_id"].as_str().unwrap(), op["group"].as_str().unwrap_or("g"), op["tenant"].as_str().unwrap_or(""));
+                let ms = op["timeout_ms"].as_u64().unwrap_or(8000);
+                let route = app.config_route.clone();
+                let fut = async move {
+                    if name == "cfg_route_set" {
+                        route.set_config(SetConfigReq::new(key, Arc::new(op["value"].as_str().unwrap().to_string()))).await
+                    } else {
+                        route.del_config(DelConfigReq::new(key)).await
+                    }
+                };
+                match tokio::time::timeout(std::time::Duration::from_millis(ms), fut).await {
+                    Ok(Ok(_)) => Ok(json!({"res":"ok"})),
+                    Ok(Err(e)) => Ok(json!({"res":"error","err":e.to_string()})),
+                    Err(_) => Ok(json!({"res":"timeout"})),
+                }
+            }
+            "cfg_tmp" => {
+                // the follower's echo of a publish it routed to the leader (ConfigRoute::set_config, Remote branch)
+                use rnacos::config::core::{ConfigCmd, ConfigKey};
+                let key = ConfigKey::new(op["data_id"].as_str().unwrap(), op["group"].as_str().unwrap_or("g"), op["tenant"].as_str().unwrap_or(""));
+                app.config_addr.send(ConfigCmd::SetTmpValue(key, Arc::new(op["value"].as_str().unwrap().to_string()))).await??;
+                Ok(json!({"res":"ok"}))
+            }
+            "cfg_get" => {
+                use rnacos::config::core::{ConfigCmd, ConfigKey, ConfigResult};
+                let key = ConfigKey::new(op["data_id"].as_str().unwrap(), op["group"].as_str().unwrap_or("g"), op["tenant"].as_str().unwrap_or(""));
+                match app.config_addr.send(ConfigCmd::GET(key)).await?? {
+                    ConfigResult::Data { value, .. } => Ok(json!({"res":"ok","value":value.as_str()})),
+                    _ => Ok(json!({"res":"ok","value":Value::Null})),
+                }
+            }
+            "raft_metrics" => {
+                let m = app.raft.metrics().borrow().clone();
+                let mut members: Vec<u64> = m.membership_config.members.iter().cloned().collect();
+                members.sort();
+                Ok(json!({"res":"ok","id":m.id,"state":format!("{:?}", m.state),"term":m.current_term,"last_log_index":m.last_log_index,
+                    "last_applied":m.last_applied,"leader":m.current_leader,"members":members}))
+            }
             "wait_leader" => {
                 let deadline = std::time::Instant::now() + std::time::Duration::from_millis(op["ms"].as_u64().unwrap_or(15000));
                 loop {
@@ -370,6 +419,39 @@ pub async fn exec(app: &Arc<AppShareData>, op: &Value) -> Value {
     }
 }
 
+/// a member of a real cluster: the gRPC services of main.rs on RNACOS_GRPC_PORT (Raft and routed requests travel over
+/// real connections between the node processes), ops read WITHOUT blocking the runtime
+async fn cluster_loop(app: Arc<AppShareData>) {
+    use rnacos::grpc::nacos_proto::bi_request_stream_server::BiRequestStreamServer;
+    use rnacos::grpc::nacos_proto::request_server::RequestServer;
+    use rnacos::grpc::server::{BiRequestStreamServerImpl, RequestServerImpl};
+    use tokio::io::AsyncBufReadExt;
+    let addr: std::net::SocketAddr = app.sys_config.get_grpc_addr().parse().unwrap();
+    let request_server = RequestServerImpl::new(app.clone(), crate::grpcauth::invoker(&app));
+    let bi_server = BiRequestStreamServerImpl::new(app.clone());
+    tokio::spawn(async move {
+        tonic::transport::Server::builder().add_service(RequestServer::new(request_server)).add_service(BiRequestStreamServer::new(bi_server)).serve(addr).await.ok();
+    });
+    println!("{}", json!({"res":"booted"}));
+    let mut lines = tokio::io::BufReader::new(tokio::io::stdin()).lines();
+    while let Ok(Some(line)) = lines.next_line().await {
+        let t = line.trim();
+        if t.is_empty() {
+            continue;
+        }
+        let op: Value = match serde_json::from_str(t) {
+            Ok(v) => v,
+            Err(_) => continue,
+        };
+        if op["op"] == "exit" {
+            break;
+        }
+        let out = exec(&app, &op).await;
+        println!("{}", out);
+    }
+    std::process::exit(0);
+}
+
 /// `rnverif node <dir>`: script on stdin, results on stdout
 pub fn main_node(args: &[String]) -> anyhow::Result<()> {
     let dir = args[0].clone();
@@ -386,6 +468,10 @@ pub fn main_node(args: &[String]) -> anyhow::Result<()> {
                 return;
             }
         };
+        if std::env::var("RNVERIF_CLUSTER").is_ok() {
+            cluster_loop(app).await;
+            return;
+        }
         println!("{}", json!({"res":"booted"}));
         let stdin = std::io::stdin();
         let mut line = String::new();
